@@ -59,6 +59,9 @@ def _case(draw):
         gname, j = draw(st.sampled_from(comps))
         fam["tweaks"].append({"kind": "diff2x2", "glyph": gname, "comp": j, "master": draw(st.integers(0, nm - 1)), "factor": draw(st.sampled_from([1.1, 0.9, 1.5])),
                               **draw(st.sampled_from([{}, {"entry": 0}, {"entry": 1}, {"entry": 2}, {"entry": 3}, {"entry": 3}]))})
+    if any(g["name"] == "twice" for g in spec["glyphs"]) and next(g for g in spec["glyphs"] if g["name"] == names[0]).get("contours") and draw(st.sampled_from([True, False, False])):
+        # "mixed glyphs in only one master": one component of 'twice' is merged into the outline in one later master
+        fam["tweaks"].append({"kind": "inline-component", "glyph": "twice", "comp": draw(st.integers(0, 1)), "master": draw(st.integers(1, nm - 1))})
     lines = [(g["name"], ci, pi) for g in spec["glyphs"] for ci, c in enumerate(g.get("contours", [])) for pi in range(1, len(c) - 1) if c[pi][2] == "line" and c[pi - 1][2] is not None]
     if lines and draw(st.sampled_from([True, False, False])):
         gname, ci, pi = draw(st.sampled_from(lines))
@@ -109,6 +112,10 @@ def _case(draw):
             # ... and a composite in the layer whose component transform is beyond the F2Dot14 range (either sign), its base outside the layer
             spec["glyphs"].append({"name": "ovb", "width": 500, "unicodes": [], "components": [{"base": b2, "t": ovt}]})
             fam["sparse"]["names"] = sorted(set(keep) | {"ovb"})
+    if opts or spec.get("lib", {}).get("com.github.googlei18n.ufo2ft.filters") or fam.get("sparse"):
+        # "mixed in one master only" is decided jointly by the default pipeline; custom filters and skip lists run before that decision and see masters whose
+        # component structure differs (outside the statement's precondition - DESIGN 10.14), so the tweak is kept for the plain call only
+        fam["tweaks"] = [t for t in fam["tweaks"] if t["kind"] != "inline-component"]
     return {"fam": fam, "module": draw(st.sampled_from(["ufoLib2", "defcon"])), "entry": entry, "opts": opts}
 
 
@@ -200,6 +207,8 @@ def run_case(case, ctx):
     module = S.ufo_module(case["module"])
     ms_ = F.master_specs(fam)
     for gidx, g0 in enumerate(ms_[0]["glyphs"]):
+        if len({len(m_["glyphs"][gidx].get("components", [])) for m_ in ms_}) > 1:
+            continue  # a component merged into the outline in one master (inline-component tweak): no index-wise correspondence
         for cidx, c0 in enumerate(g0.get("components", [])):
             signs = {R.det(m_["glyphs"][gidx]["components"][cidx]["t"]) < 0 for m_ in ms_}
             if len(signs) > 1:
@@ -220,7 +229,12 @@ def run_case(case, ctx):
             else:
                 res = ufo2ft.compileInterpolatableOTFsFromDS(ds, **kw)
                 out = [reload(s.font) for s in sorted(res.sources, key=lambda s_: (s_.name == "sparse", s_.name or ""))]
-    except Cu2QuError:
+    except Cu2QuError as e:
+        from fontTools.cu2qu.errors import IncompatibleFontsError, IncompatibleGlyphsError
+
+        if isinstance(e, (IncompatibleFontsError, IncompatibleGlyphsError)):
+            # compatible sources reached the curve conversion in incompatible shape: something before it treated the masters differently
+            raise Violation("cu2qu was handed glyphs that are not compatible across masters although the sources are", error=type(e).__name__, detail=str(e)[:300], tweaks=fam["tweaks"], options=case["opts"])
         raise Discard("cu2qu could not find a common approximation")
     ttf = entry.startswith("TTF")
     sig = sig_tt if ttf else sig_cff
@@ -322,6 +336,8 @@ def run_case(case, ctx):
         ctx.label("cubic")
     if any(t["kind"] == "diff2x2" for t in fam["tweaks"]):
         ctx.label("differing-2x2")
+    if any(t["kind"] == "inline-component" for t in fam["tweaks"]):
+        ctx.label("glyph-mixed-in-one-master-only")
     for t in fam["tweaks"]:
         if t["kind"] == "diff2x2" and "entry" in t:
             ctx.label("differing-2x2-entry-%s-only" % ("xx", "xy", "yx", "yy")[t["entry"]])
